@@ -87,6 +87,23 @@ def r11_1(run):
             ok = bool(rets) and all(r.value is not None and norm(r.value) == "self" for r in rets) and w is None
             run.ob("R11.1", loc(m, m.node), m.short, f"{name} returns self on every path (object identity kept)", ok,
                    "return self" if ok else "augmented assignment rebinds the name to a different object")
+        if name in ("__pow__", "__ipow__"):
+            short = [s for s in ss if s.op_cls and _ufunc_of(run, s.op_cls) != uf]
+            for s in short:
+                nn = cfg.stmt_node_containing(s.call)
+                guards = [t for t, st in cfg.stmt.items() if cfg.label[t] == "If" and "isinstance(" in norm(st) and cfg.edge_dominates(t, "true", nn)]
+                okg = False
+                for t in guards:
+                    classes = set()
+                    for x in ast.walk(cfg.stmt[t]):
+                        if isinstance(x, ast.Call) and dotted(x.func) == "isinstance" and len(x.args) == 2 and norm(x.args[0]) == other:
+                            cl = x.args[1]
+                            classes |= {norm(e) for e in (cl.elts if isinstance(cl, ast.Tuple) else [cl])}
+                    if classes and classes <= {"Number", "np.ndarray", "Real", "Integral", "int", "float", "numbers.Number", "np.number"}:
+                        okg = True
+                run.ob("R11.1", loc(m, s.call), m.short, f"{name}: the exponent is dropped from the op's inputs only when it is provably not a Tensor", okg,
+                       "shortcut guarded by isinstance(other, Number / np.ndarray)" if okg else
+                       "the x**1 / x**2 shortcut can swallow a Tensor exponent: it silently leaves the graph and receives no gradient")
         # the general kernel is reachable (a shortcut must not shadow it)
         if name in ("__pow__", "__ipow__"):
             gen = [s for s in ss if s.op_cls and _ufunc_of(run, s.op_cls) == uf]
